@@ -10,6 +10,9 @@
 #include <sys/uio.h>
 #include GEN_H
 #include GEN_FILE
+#ifdef GEN_HELPERS
+GEN_HELPERS
+#endif
 
 static uint64_t bits(double d) { uint64_t u; memcpy(&u, &d, sizeof(u)); return u; }
 int mpt_iterator_consume(MPT_INTERFACE(iterator) *it, MPT_TYPE(type) t, void *d) { (void) it; (void) t; (void) d; return MPT_ERROR(BadArgument); }
@@ -29,7 +32,7 @@ void harness(void)
 	/* any reachable position, incl. just past the end */
 	V_REQ(in_pos <= in_elem);
 	GEN_SETPOS(d, in_pos);
-	want = GEN_EXPECT(d, in_pos);
+	want = GEN_EXPECT(d);
 
 	v = it->_vptr->value(it);
 	V_CHECK("value: an element exactly while pos < elem", (v != 0) == (in_pos < in_elem));
@@ -44,20 +47,24 @@ void harness(void)
 		V_CHECK("clone: own storage, same position and count", cl != mt && GEN_POS(cd) == in_pos && GEN_ELEM(cd) == in_elem);
 		cl->_vptr->convertable.convert((MPT_INTERFACE(convertable) *) cl, MPT_ENUM(TypeIteratorPtr), &cit);
 		cv = cit->_vptr->value(cit);
-		V_CHECK("clone: replays the same value", (cv != 0) == (v != 0) && IMP(cv, bits(*(const double *) cv->_addr) == bits(want)));
+		/* equal parameters and position => the identical sequence; the clone's own value is its formula over its own
+		 * (equal) fields - comparing two separately computed floating point products would be a multiplier equivalence query */
+		V_CHECK("clone: same parameters", GEN_SAME_PARAMS(d, cd));
+		V_CHECK("clone: replays its formula at the same position", (cv != 0) == (v != 0) && IMP(cv, bits(*(const double *) cv->_addr) == bits(GEN_EXPECT(cd))));
 		V_CHECK("clone: advancing the clone leaves the original", (cit->_vptr->advance(cit), GEN_POS(d) == in_pos));
 		cl->_vptr->unref(cl);
 	}
 
+	{ double nd_gc; GEN_BEFORE_ADVANCE(d); (void) nd_gc; }
 	r = it->_vptr->advance(it);
 	V_CHECK("advance: past the end is an error and changes nothing", IMP(in_pos >= in_elem, r < 0 && GEN_POS(d) == in_pos && GEN_ELEM(d) == in_elem));
 	V_CHECK("advance: moves to the next position", IMP(in_pos < in_elem, GEN_POS(d) == in_pos + 1 && GEN_ELEM(d) == in_elem));
-	V_CHECK("advance: reports 'no further element' exactly at the last one", IMP(in_pos < in_elem, (r == 0) == (in_pos + 1 == in_elem) && r >= 0));
-	V_CHECK("advance: the next value is the formula at pos+1", IMP(in_pos + 1 < in_elem, (v = it->_vptr->value(it)) != 0 && bits(*(const double *) v->_addr) == bits(GEN_EXPECT_NEXT(d, in_pos, want))));
+	V_CHECK("advance: reports 'no further element' exactly at the last one", IMP(in_pos < in_elem, (r == 0) == (in_pos == in_elem - 1) && r >= 0));
+	V_CHECK("advance: the next value is the formula at pos+1", IMP(in_pos < in_elem - 1, (v = it->_vptr->value(it)) != 0 && bits(*(const double *) v->_addr) == bits(GEN_EXPECT_NEXT(d, want))));
 
 	r = it->_vptr->reset(it);
 	V_CHECK("reset: back to the first element, reports the count", GEN_POS(d) == 0 && GEN_ELEM(d) == in_elem && (uint32_t) r == in_elem);
-	V_CHECK("reset: the first value again", (v = it->_vptr->value(it)) != 0 && bits(*(const double *) v->_addr) == bits(GEN_EXPECT(d, 0)));
+	V_CHECK("reset: the first value again", (v = it->_vptr->value(it)) != 0 && bits(*(const double *) v->_addr) == bits(GEN_EXPECT(d)));
 
 	/* the documented walk for short sequences */
 	if (in_elem <= 4) {
@@ -71,9 +78,9 @@ void harness(void)
 		V_CHECK("walk: visits exactly the elements the source denotes", n == in_elem);
 		V_CHECK("walk: afterwards reading is reported as the end", it->_vptr->value(it) == 0 && it->_vptr->advance(it) < 0);
 	}
-	V_COVER("last element", in_pos + 1 == in_elem);
+	V_COVER("last element", in_pos == in_elem - 1);
 	V_COVER("past the end", in_pos == in_elem);
-	V_COVER("middle", in_pos > 0 && in_pos + 1 < in_elem);
+	V_COVER("middle", in_pos > 0 && in_pos < in_elem - 1);
 	mt->_vptr->unref(mt);
 	V_CANARY();
 }
